@@ -22,7 +22,8 @@ DESIGN_REF = 'DESIGN.md section 3 C07, 2.3, 2.4'
 LEVEL = 'exploration'
 RULE = ('Cases: (circuit, c_reuse, strip_forks, capacities, delays, stimulus) from the seeded generator; per case k intra-level permutations and k mock-GPU '
         'thread orders (k=3 quick, 12 thorough). Non-trivial iff some level holds >= 2 operations and, when memory reuse is on, at least one address is '
-        'handed out twice. Distinct = digest of all case fields.')
+        'handed out twice. Distinct = digest of all case fields.'
+        ' One layered circuit per shard with levels several hundred operations wide (static structure + permuted runs only).')
 ASSUMPTIONS = ['the scratch slot (target of cells without output line) and abuf (atomic commutative adds) are excluded from race detection',
                'LogicSim executes sequentially; for it only permutation invariance is demanded (its two scratch rows are shared by design)']
 REACH = {'sim.levelize': ('sim.py', 235, 262), 'sim.alloc': ('sim.py', 285, 315), 'wave_sim.launch': ('wave_sim.py', 119, 128)}
